@@ -35,7 +35,9 @@ Record tobs := mk_obs {
   o_cls : list (Z * list Z);     (* (_ti_next_z_index, _ti_free_z_indexes) as seen from each class of the widget tree *)
   o_cdis : nat;
   o_wdis : list (nat * nat);
-  o_cviews : list view
+  o_cviews : list view;
+  o_resized : bool;              (* urwid's [_resized]: a resize is pending (the environment, observed) *)
+  o_reached : bool               (* a draw step: urwid's screen buffer holds the canvas handed over *)
 }.
 
 Inductive tact :=
@@ -48,6 +50,8 @@ Inductive tact :=
 | XNew (wid : nat) (kitty : bool) (z : option Z)   (* a widget (of any class of the tree) constructed;
                                                        [None]: the constructor raised *)
 | XDel
+| XWinch (out : list btok)                    (* a SIGWINCH is delivered to the started screen *)
+| XResized (out : list btok)                  (* the resize is handled: get_input() reports 'window resize' *)
 | XApi (ws : list (nat * wkind)) (now : bool) (imm out : list btok).
                                          (* the public clear_images(ws..., now=now): what went to the
                                             terminal device at once, what was put into the output buffer *)
@@ -60,8 +64,15 @@ Record tcase := mk_case { tc_konsole : bool; tc_ksup : bool; tc_ikon : bool; tc_
     clear_images(now=False) do not flush; draw_screen / start / stop do) *)
 Record tstate := mk_tstate { m_scr : scr; m_term : bterm; m_alloc : alloc_st; m_live : list (nat * Z);
                              m_queue : list btok;
-                             m_dirty : bool;  (* a public clear_images() call since the last write of the screen *)
-                             m_origin : Z     (* the terminal row where the screen's display begins *) }.
+                             m_dirty : bool;  (* a public clear_images() call / an aborted redraw since the last write of the screen *)
+                             m_origin : Z;    (* the terminal row where the screen's display begins *)
+                             (* the ENVIRONMENT (urwid), specification side: a SIGWINCH arrived and the resize
+                                has not been handled (urwid's draw_screen returns without drawing,
+                                _raw_display_base.py:582, :713); the canvas object that reached the terminal
+                                last, while urwid's screen buffer is valid (urwid returns at once when handed
+                                that very object, :577) *)
+                             m_pending : bool;
+                             m_reached : option nat }.
 
 (** a run of tokens without buffer switches (keeps the generated case files small) *)
 Definition bts (l : list stok) : list btok := map BT l.
@@ -146,8 +157,9 @@ Definition alloc_obs (res : option Z) (s : alloc_st) : option alloc_st :=
 (** *** one step *)
 
 Definition resync (st : tstate) (o : tobs) (term : bterm) (canv : option nat) (queue : list btok) (dirty : bool)
-           (origin : Z) : tstate :=
-  mk_tstate (mk_scr (o_cviews o) (o_cdis o) (o_wdis o) canv) term (mk_alloc (o_next o) (o_free o)) (o_live o) queue dirty origin.
+           (origin : Z) (pending : bool) (reached : option nat) : tstate :=
+  mk_tstate (mk_scr (o_cviews o) (o_cdis o) (o_wdis o) canv) term (mk_alloc (o_next o) (o_free o)) (o_live o) queue dirty origin
+            pending reached.
 
 Definition live_eqb (a b : nat * Z) : bool := Nat.eqb (fst a) (fst b) && Z.eqb (snd a) (snd b).
 Definition live_same (a b : list (nat * Z)) : bool :=
@@ -185,6 +197,26 @@ Definition judge_alloc (st : tstate) (a : tact) (o : tobs) : nat * nat :=
 
 Definition no_plcs (l : list plc) : bool := match l with [] => true | _ => false end.
 
+(** *** the z-indexes of the TRANSMITTED placements
+
+    The screen deletes a kitty widget's images by the z-index the widget holds (the allocator's).
+    So every placement of the canvas must carry the z-index of the widget whose view it lies in
+    (0 for an iTerm2 image on Konsole), must lie in a tracked view, and the views of two different
+    live kitty widgets must carry different z-indexes ON THE TERMINAL.  [vs]: the tracked views
+    read off the canvas' layout ([positions], 1-based rows and columns); [ps]: the placements of
+    the canvas' rows (the terminal's, 0-based, the display beginning at row [origin]). *)
+Definition view_has (origin : Z) (v : view) (p : plc) : bool :=
+  let r0 := (origin + Z.of_nat (v_row v) - 1)%Z in
+  let c0 := (Z.of_nat (v_col v) - 1)%Z in
+  Z.leb r0 (p_r p) && Z.ltb (p_r p) (r0 + Z.of_nat (v_rows v))
+  && Z.leb c0 (p_c p) && Z.ltb (p_c p) (c0 + Z.of_nat (v_cols v)).
+Definition placed_z_ok (origin : Z) (vs : list view) (ps : list plc) : bool :=
+  forallb (fun p => existsb (fun v => view_has origin v p) vs
+                    && forallb (fun v => negb (view_has origin v p) || Z.eqb (p_z p) (kind_z (v_kind v))) vs) ps
+  && forallb (fun v => forallb (fun w => negb (is_kitty (v_kind v) && is_kitty (v_kind w))
+                                         || Nat.eqb (v_wid v) (v_wid w)
+                                         || negb (Z.eqb (kind_z (v_kind v)) (kind_z (v_kind w)))) vs) vs.
+
 Definition judge_screen (c : tcase) (st : tstate) (a : tact) (o : tobs)
   : nat * nat * bterm * option nat * list btok * Z :=
   let k := tc_konsole c in
@@ -211,23 +243,33 @@ Definition judge_screen (c : tcase) (st : tstate) (a : tact) (o : tobs)
            end in
     let tracking := tc_ksup c || tc_ikon c in
     let same := match s_canv s with Some i => Nat.eqb i (canvas_id cv) | None => false end in
+    (* the environment: urwid does not draw while a resize is pending, nor when the base class'
+       draw raises before its output is written; it returns at once when handed the canvas object
+       its screen buffer holds *)
+    let aborted := m_pending st || raised in
+    let quick := match m_reached st with Some i => Nat.eqb i (canvas_id cv) | None => false end in
+    let pos := match cv with
+               | Composite _ _ => positions k lay
+               | Single ci cols rows => positions k [(rows, [CNew (mk_cview 0 0 cols rows ci)])]
+               end in
     let spec :=
       if raised && negb bad then 1
       else if negb (bracketed sout) then 2
-      else if tracking && negb same
-              && negb (views_same (match cv with
-                                   | Composite _ _ => positions k lay
-                                   | Single ci cols rows => positions k [(rows, [CNew (mk_cview 0 0 cols rows ci)])]
-                                   end) (o_cviews o)) then 3
-      else if raised then 0
-      (* urwid returns early, writing nothing, when handed the very canvas object it drew last
-         (e.g. the cached canvas of an image widget used as the top-most widget): after a public
-         clear_images() call that is not a redraw in the sense of the property (the images stay
-         cleared until a new canvas is drawn) *)
-      else if same && m_dirty st then 0
+      else if tracking && negb same && negb (views_same pos (o_cviews o)) then 3
+      else if tracking && negb (placed_z_ok origin pos (truth_plcs k origin truth)) then 8
+      (* a redraw that did not reach the terminal (aborted by urwid; or short-circuited by urwid
+         because it is handed the very canvas object it drew last, after a public clear_images()
+         call or an aborted redraw deleted images: not a redraw in the sense of the property, the
+         images stay cleared until a new canvas is drawn): the terminal must not show anything that
+         the canvas now tracked does not have - else the tracking is out of sync with the terminal
+         and the image is never deleted *)
+      else if aborted || (quick && m_dirty st)
+      then (if negb (plcs_subset (vis_plcs term') (truth_plcs k origin truth)) then 9 else 0)
       else if negb (plcs_subset (vis_plcs term') (truth_plcs k origin truth)) then 4     (* a ghost *)
       else if negb (plcs_subset (truth_plcs k origin truth) (vis_plcs term')) then 5     (* an image line missing *)
       else 0 in
+    (* the environment model against urwid's own record *)
+    let model := if Nat.eqb model 0 && negb (Bool.eqb (o_reached o) (negb aborted || quick)) then 10 else model in
     (model, spec, term', Some (canvas_id cv), [], origin)
   | XClear out | XStart _ out | XStop out =>
     (* clear() only queues its output; start / stop flush *)
@@ -291,6 +333,14 @@ Definition judge_screen (c : tcase) (st : tstate) (a : tact) (o : tobs)
       else if negb (views_same (s_prev s) (o_cviews o)) then 5
       else 0 in
     (model, 0, m_term st, s_canv s, m_queue st, origin)
+  | XWinch out | XResized out =>
+    (* the signal handler and get_input() write nothing and leave the library's state alone *)
+    let model :=
+      if negb (Nat.eqb (s_cdis s) (o_cdis o)) then 6
+      else if negb (views_same (s_prev s) (o_cviews o)) then 5
+      else if negb (wdis_same (s_wdis s) (o_wdis o)) then 7
+      else match bstoks out with [] => 0 | _ => 4 end in
+    (model, 0, bexec k (m_term st) out, s_canv s, m_queue st, origin)
   end.
 
 Record verdict := mk_verdict { v_mis : option (nat * nat); v_fail : option (nat * nat) }.
@@ -305,22 +355,39 @@ Fixpoint judge_steps (c : tcase) (st : tstate) (i : nat) (steps : list tstep) (v
     let '(m2, s2, term', canv, queue', origin') := judge_screen c st a o in
     let m := if Nat.eqb m2 0 then (if Nat.eqb m1 0 then 0 else 8) else m2 in
     let s := if Nat.eqb s2 0 then s1 else s2 in
-    let v' := mk_verdict (match v_mis v with Some x => Some x | None => if Nat.eqb m 0 then None else Some (i, m) end)
-                         (match v_fail v with Some x => Some x | None => if Nat.eqb s 0 then None else Some (i, s) end) in
+    let aborted := match a with XDraw _ _ _ raised _ _ => m_pending st || raised | _ => false end in
+    let quick := match a with
+                 | XDraw cv _ _ _ _ _ => match m_reached st with Some j => Nat.eqb j (canvas_id cv) | None => false end
+                 | _ => false
+                 end in
     let dirty' := match a with
                   | XApi _ _ _ _ => true
-                  | XDraw cv _ _ raised _ _ =>
-                    if raised then m_dirty st
-                    else if match s_canv (m_scr st) with Some j => Nat.eqb j (canvas_id cv) | None => false end
-                         then m_dirty st else false
-                  | XClear _ | XStart _ _ | XStop _ => false
+                  | XDraw _ _ _ _ _ _ => if aborted then true else if quick then m_dirty st else false
+                  | XClear _ | XStart _ _ | XStop _ | XWinch _ => false
                   | _ => m_dirty st
                   end in
-    judge_steps c (resync st o term' canv queue' dirty' origin') (S i) rest v'
+    (* the environment model: SIGWINCH sets the flag (and invalidates urwid's screen buffer), handling
+       the resize clears it; it survives stop() / start() *)
+    let pending' := match a with
+                    | XWinch _ => true
+                    | XResized _ => false
+                    | XNewScreen => false
+                    | _ => m_pending st
+                    end in
+    let reached' := match a with
+                    | XDraw cv _ _ _ _ _ =>
+                      if aborted then (if m_pending st then None else m_reached st) else Some (canvas_id cv)
+                    | XClear _ | XStart _ _ | XStop _ | XWinch _ | XNewScreen => None
+                    | _ => m_reached st
+                    end in
+    let m := if Nat.eqb m 0 && negb (Bool.eqb (o_resized o) pending') then 9 else m in
+    let v' := mk_verdict (match v_mis v with Some x => Some x | None => if Nat.eqb m 0 then None else Some (i, m) end)
+                         (match v_fail v with Some x => Some x | None => if Nat.eqb s 0 then None else Some (i, s) end) in
+    judge_steps c (resync st o term' canv queue' dirty' origin' pending' reached') (S i) rest v'
   end.
 
 Definition check (c : tcase) : nat :=
-  let st0 := mk_tstate scr_init bterm_init (mk_alloc (tc_next c) []) [] [] false 0%Z in
+  let st0 := mk_tstate scr_init bterm_init (mk_alloc (tc_next c) []) [] [] false 0%Z false None in
   let v := judge_steps c st0 0 (tc_steps c) (mk_verdict None None) in
   match v_fail v, v_mis v with
   | Some (i, r), None => 2 + 10 * r + 1000 * i
